@@ -1349,7 +1349,7 @@ func (x *lapply) firstColLen(a, b ast.Stmt) (string, bool) {
 	}
 	name := identName(def.Lhs[0])
 	cols := x.recvName + "." + x.colsField
-	if name == "" || x.colsField == "" || src(ifs.Cond) != "len("+cols+") > 0" {
+	if name == "" || x.colsField == "" || src(unparen(ifs.Cond)) != "len("+cols+") > 0" {
 		return "", false
 	}
 	as, ok := ifs.Body.List[0].(*ast.AssignStmt)
@@ -1392,7 +1392,7 @@ func (x *lapply) createTail(stmts []ast.Stmt, sc *lscope) bool {
 		return false
 	}
 	// `if err != nil { return qf.<m>(err) }`
-	if ifs.Init != nil || ifs.Else != nil || src(ifs.Cond) != errv+" != nil" || len(ifs.Body.List) != 1 {
+	if ifs.Init != nil || ifs.Else != nil || src(unparen(ifs.Cond)) != errv+" != nil" || len(ifs.Body.List) != 1 {
 		return false
 	}
 	if r, ok := ifs.Body.List[0].(*ast.ReturnStmt); !ok || len(r.Results) != 1 {
@@ -1958,7 +1958,7 @@ func (c *lctx) aggCase(stmts []ast.Stmt, sc *lscope) string {
 					return gcop(src(s))
 				}
 				ifs, ok := stmts[n+1].(*ast.IfStmt)
-				if !ok || ifs.Init != nil || ifs.Else != nil || src(ifs.Cond) != "!"+okv || len(ifs.Body.List) != 1 {
+				if !ok || ifs.Init != nil || ifs.Else != nil || src(unparen(ifs.Cond)) != "!"+okv || len(ifs.Body.List) != 1 {
 					return gcop(src(stmts[n+1]))
 				}
 				if r, ok := ifs.Body.List[0].(*ast.ReturnStmt); !ok || len(r.Results) != 2 || !c.isErrExpr(r.Results[1], sc) {
